@@ -102,6 +102,7 @@ def check(ctx: Ctx):
     check_pipeline(ctx)
     # R01.3 delegation
     c03.check_no_pruning(ctx)
+    c03._guarded(ctx, "R03.7", c03.check_candidate_call)
     c03._guarded(ctx, "R03.1", c03.check_codec)
     c03._guarded(ctx, "R03.2", c03.check_candidates)
     c03._guarded(ctx, "R03.3", c03.check_beats)
